@@ -287,15 +287,37 @@ Section RunProofs.
   (** where a Panic can come from *)
   Lemma run_handler_panic : forall F P mf ro value g1 args st,
     r_out (run_handler F P mf ro value g1 args st) = Panic ->
-    validate F (mf_id mf) args = VPanic \/ pf_oog_deferred P = false \/ f_supply_guard F = false.
+    validate F (mf_id mf) args = VPanic \/ pf_oog_deferred P = false \/ f_supply_guard F = false \/
+    f_revert_decode_total F = false.
   Proof.
     intros F P mf ro value g1 args st. unfold Model.run_handler, oog.
-    repeat dmatch; simpl; intro H; try discriminate; auto.
+    repeat dmatch; simpl; intro H; try discriminate; auto;
+      match goal with
+      | E : revert_decode_panics F _ _ _ = true |- _ =>
+          unfold revert_decode_panics in E; apply andb_prop in E; destruct E as [E _];
+          apply negb_true_iff in E; auto
+      end.
+  Qed.
+
+  (** whatever a contract called by the body answers — revert with ANY revert data, out of gas, another
+      failure, a return that does not decode — the precompile call is an error of the sub-call, never a panic,
+      once the revert-data decoder is total *)
+  Lemma run_handler_nested_answer : forall F P mf ro value g1 args st st' u n data cap,
+    f_revert_decode_total F = true -> pf_oog_deferred P = true ->
+    validate F (mf_id mf) args <> VPanic ->
+    body (mf_id mf) args st g1 = BNested st' u n data cap ->
+    is_err (r_out (run_handler F P mf ro value g1 args st)) = true.
+  Proof.
+    intros F P mf ro value g1 args st st' u n data cap T D V B. unfold Model.run_handler, oog, revert_decode_panics.
+    rewrite T, D. simpl.
+    destruct (mf_guard mf); [destruct ro| destruct (value_nonzero value) |]; try reflexivity;
+      (destruct (validate F (mf_id mf) args); try reflexivity; [contradiction|];
+       rewrite B; simpl; destruct (f_local_meter F && (g1 <? u)); reflexivity).
   Qed.
 
   Lemma run_pc_panic : forall F P c4 ro value gas inp st,
     r_out (run_pc F P c4 ro value gas inp st) = Panic ->
-    f_len_guard F = false \/ pf_oog_deferred P = false \/ f_supply_guard F = false \/
+    f_len_guard F = false \/ pf_oog_deferred P = false \/ f_supply_guard F = false \/ f_revert_decode_total F = false \/
     exists mf args, selected P inp = Some mf /\ i_unpack inp = Some args /\ validate F (mf_id mf) args = VPanic.
   Proof.
     intros F P c4 ro value gas inp st. unfold Model.run_pc.
@@ -307,8 +329,8 @@ Section RunProofs.
       destruct (selected P inp) as [mf|] eqn:S; simpl; [|discriminate].
       destruct (i_unpack inp) as [args|] eqn:U; simpl; [|discriminate].
       destruct (mf_in_switch mf) eqn:SW; simpl; [|discriminate].
-      intro H. apply run_handler_panic in H. destruct H as [H|[H|H]]; [|auto|auto].
-      right. right. right. exists mf, args. auto.
+      intro H. apply run_handler_panic in H. destruct H as [H|[H|[H|H]]]; [|auto|auto|auto].
+      right. right. right. right. exists mf, args. auto.
   Qed.
 
   Lemma evm_call_out : forall F p k value gas inp st,
@@ -342,7 +364,7 @@ Section RunProofs.
     apply run_pc_panic in H.
     pose proof (oog_deferred_of F p PO) as OD.
     unfold panic_ok in PO. repeat (apply andb_prop in PO as [PO ?]).
-    destruct H as [H|[H|[H|[mf [args [S [U V]]]]]]]; try congruence.
+    destruct H as [H|[H|[H|[H|[mf [args [S [U V]]]]]]]]; try congruence.
     unfold input_wf in W. rewrite U in W.
     apply (validate_no_panic F (mf_id mf) args); [|assumption|assumption].
     unfold guards_all. repeat (apply andb_true_intro; split); assumption.
@@ -362,7 +384,7 @@ Section RunProofs.
 
   (** bodies of methods that are not state-changing are read-only keeper queries *)
   Definition keeps (b : bres St) (st : St) : Prop :=
-    match b with BOk st' _ | BErr st' _ | BOog st' | BMint st' _ _ => st' = st end.
+    match b with BOk st' _ | BErr st' _ | BOog st' | BMint st' _ _ | BNested st' _ _ _ _ => st' = st end.
   Definition query_bodies_readonly : Prop :=
     forall m args st lim, can_mutate m = false ->
       keeps (body m args st lim) st /\ keeps (after_mint m args st lim) st.
